@@ -42,6 +42,9 @@ THEOREMS = [
     "Ymq.C08.sqrt_mod_exact",
     "Ymq.C08.perfect_power_no_panic",
     "Ymq.C08.mulmod_spec",
+    "Ymq.C08.sqrt_mod_u64_factor_base",
+    "Ymq.C08.sqrt_mod_uint_3mod4",
+    "Ymq.C08.invert_total",
 ]
 HYPOTHESES = []
 PROFILES = ["release", "chk"]
@@ -291,14 +294,14 @@ def cases(tier, rng, extended=False):
     p16 += rest if not quick else rng.sample(rest, 300) + rest[-3:]
     for p in p16 + [6, 9, 15, 255, 65535, 21845, 1023, 65533]:
         yield mk(f"div_modu16_all {p}")
-    cnt = 300 if quick else 20000
+    cnt = 300 if quick else 200000
     for p in small:
         yield mk(f"div_sweep {p} {rng.getrandbits(32)} {cnt * mult}")
     for p in edge + comps:
         yield mk(f"div_sweep {p} {rng.getrandbits(32)} {cnt * 20 * mult}")
 
     # ---------------- Inverter
-    for p in [q for q in PRIMES16 if q < (1 << 10 if quick else 1 << 13)]:
+    for p in [q for q in PRIMES16 if q < (1 << 10 if quick else 1 << 15)]:
         yield mk(f"inverter_all {p}")
     for p in [q for q in PRIMES16 if q < 64]:
         yield mk(f"inverter_new {p}")
@@ -328,7 +331,7 @@ def cases(tier, rng, extended=False):
         yield mk(line)
 
     # ---------------- sqrt_mod
-    lim = 1 << 9 if quick else 1 << 12
+    lim = 1 << 9 if quick else 1 << 14
     for p in [q for q in PRIMES16 if q < lim]:
         yield mk(f"sqrt_mod_all {p}")
     for p in [q for q in PRIMES16 if q < 64]:
